@@ -70,12 +70,18 @@ DepSets ==
 
 \* ---- "dep" mode (C16): every dependent body owns a uniquely named probe attribute p_*; key labels at index 0 and/or 1
 P == A(FALSE, TRUE, FALSE, FALSE)
-LabelCfgs == { <<[dep |-> TRUE, comp |-> TRUE], [dep |-> TRUE, comp |-> FALSE]>>,
-               <<[dep |-> TRUE, comp |-> TRUE], [dep |-> FALSE, comp |-> FALSE]>>,
-               <<[dep |-> FALSE, comp |-> FALSE], [dep |-> TRUE, comp |-> TRUE]>> }
+PM(m, d) == [req |-> FALSE, opt |-> TRUE, comp |-> FALSE, dep |-> FALSE, depr |-> FALSE, dflt |-> Nil, mods |-> m, desc |-> d]
+L(dep, comp, m, d) == [dep |-> dep, comp |-> comp, mods |-> m, desc |-> d]
+LabelCfgs == { <<L(TRUE, TRUE, <<"m-l0">>, "label zero"), L(TRUE, FALSE, <<"m-l1a", "m-l1b">>, "label one")>>,
+               <<L(TRUE, TRUE, <<>>, "label zero"), L(FALSE, FALSE, <<"m-l1">>, "")>>,
+               <<L(FALSE, FALSE, <<"m-l0">>, ""), L(TRUE, TRUE, <<>>, "label one")>> }
+\* a nested block with two labels and two attributes whose modifiers differ (aliasing of modifier slices shows here)
+NB == [labels |-> <<L(FALSE, FALSE, <<"m-n0">>, "n zero"), L(FALSE, FALSE, <<"m-n1">>, "n one")>>, min |-> 0, max |-> 0, depr |-> FALSE, deps |-> <<>>,
+       mods |-> <<"m-nb">>, desc |-> "nested block",
+       body |-> Body([na |-> PM(<<"m-na">>, "attr na"), nz |-> PM(<<"m-nz">>, "attr nz")], EmptyFn, NoExt)]
 KeyX(lc) == SelectSeq(<< <<0, "x">>, <<1, "y">> >>, LAMBDA p : lc[p[1] + 1].dep)
 DepSetsFor(X) ==
-  LET pd(n, extra) == [attrs |-> ([a \in {n} |-> P] @@ extra), blocks |-> EmptyFn, any |-> FALSE, ext |-> NoExt, link |-> TRUE]
+  LET pd(n, extra) == [attrs |-> ([a \in {n} |-> PM(<<"m-" \o n>>, "desc of " \o n)] @@ extra), blocks |-> EmptyFn, any |-> FALSE, ext |-> NoExt, link |-> TRUE, desc |-> "body of " \o n]
   IN { <<>>,
        << [lk |-> X, ak |-> <<>>, body |-> pd("p_d2", EmptyFn)] >>,
        << [lk |-> X, ak |-> <<>>, body |-> [pd("p_d4", [sel |-> Sel(Nil)]) EXCEPT !.link = FALSE]],
@@ -85,7 +91,8 @@ DepSetsFor(X) ==
           [lk |-> X, ak |-> << <<"sel", [k |-> "ref", v |-> "z.y"]>> >>, body |-> pd("p_s3", [sel |-> Sel(Nil)])] >> }
 \* a key attribute in the static body as well: keys = labels + attribute at the first level
 StaticSel == { EmptyFn, [sel |-> Sel(Nil)] }
-RSchemasDep == UNION { { Blk(lc, Body([p_st |-> P] @@ ss, EmptyFn, NoExt), ds, 0, 0) : ds \in DepSetsFor(KeyX(lc)), ss \in StaticSel } : lc \in LabelCfgs }
+RSchemasDep == UNION { { [Blk(lc, Body([p_st |-> PM(<<"m-st">>, "static probe")] @@ ss, [nb |-> NB], NoExt), ds, 0, 0) EXCEPT !.depr = FALSE]
+                          @@ [mods |-> <<"m-r1", "m-r2">>, desc |-> "block r"] : ds \in DepSetsFor(KeyX(lc)), ss \in StaticSel } : lc \in LabelCfgs }
 
 RSchemas == IF Mode = "dep" THEN RSchemasDep ELSE
             { Blk(<<[dep |-> TRUE, comp |-> TRUE]>>, Body(sa, sb, e), ds, 0, 0) : sa \in SAttrs, sb \in SBlocks, e \in Exts, ds \in DepSets }
@@ -111,7 +118,8 @@ Palette == IF Quick THEN
 \* HCL rejects (and drops) a second definition of an attribute: such bodies are not in the universe
 NoDupAttrs(b) == \A i, j \in AttrsOf(b) : b[i].name = b[j].name => i = j
 Ref(v) == [k |-> "ref", v |-> v]
-Probes == << AtV("p_st", Ref("ref.x")), AtV("p_d2", Ref("ref.x")), AtV("p_d4", Ref("ref.x")), AtV("p_s2", Ref("ref.x")), AtV("p_s3", Ref("ref.x")) >>
+NBItem == B("nb", <<"x", "y">>, <<At("na"), At("nz"), At("unknown")>>)
+Probes == << NBItem, AtV("p_st", Ref("ref.x")), AtV("p_d2", Ref("ref.x")), AtV("p_d4", Ref("ref.x")), AtV("p_s2", Ref("ref.x")), AtV("p_s3", Ref("ref.x")) >>
 SelVals == { <<>>, <<AtV("sel", Str("v"))>>, <<AtV("sel", Str("w"))>>, <<AtV("sel", Ref("z.y"))>> }
 BodiesDep == { sv \o Probes : sv \in SelVals } \cup { Probes \o sv : sv \in SelVals }
 Bodies == IF Mode = "dep" THEN BodiesDep ELSE { b \in UNION { [1..n -> Palette] : n \in 0..MaxItems } : NoDupAttrs(b) }
